@@ -31,6 +31,13 @@ flat `np.repeat(v, k)` is `(r, i) ↦ v[(r·n+i) / k]`); `'eq'`/`'ineq'` are the
 (`yield`) are the lists of what they yield; `MFDeviceSet.shape` is the inherited `DeviceSet.shape` of its conduits.
 Outside the subset by nature (T2-only, listed in `T2_ONLY`): `re`, `dict()` de-duplication of qualified ids,
 try/except-driven recursion of `leaf_devices`, numdifftools, constructors.
+
+Soundness rules: those of vk/translate_vec.py (keywords, in-place operators, raw flows — here a flow matrix is flat or
+(R, n) until `s.reshape(self.shape)` —, late-binding closures, bindings of unit names, pinned attribute definitions), plus:
+a list accumulator may be extended (`+=`) but not rebound inside a loop / branch; a constraint Jacobian must be flattened
+(`.reshape(flat_shape)` / np.tile); `np.array(list_of_offsets, dtype=int)` is the only dtype accepted on a list of naturals.
+The group `LeafCons` translates the WHOLE bodies of `Device.constraints` and `SDevice.constraints` (guards, loops, dict types,
+presence of 'jac') into `List (Con α)`, bridged to `deviceCons` / `sdeviceCons`.
 """
 import ast, os, sys, hashlib, re
 
@@ -48,12 +55,17 @@ Val, S, I, N, V, M, lit, idx_add = TV.Val, TV.S, TV.I, TV.N, TV.V, TV.M, TV.lit,
 
 # ----------------------------------------------------------------------------------------------- configuration
 FILES = {'DeviceSet': 'deviceset.py', 'MFDeviceSet': 'mfdeviceset.py', 'TwoRatioMFDeviceSet': 'tworatiomfdeviceset.py',
-         'SubBalancedDeviceSet': 'subbalanceddeviceset.py', 'BaseDevice': 'basedevice.py', None: 'utils.py'}
+         'SubBalancedDeviceSet': 'subbalanceddeviceset.py', 'BaseDevice': 'basedevice.py', 'Device': 'device.py', 'SDevice': 'sdevice.py',
+         None: 'utils.py'}
 BASES = {'DeviceSet': ['BaseDevice'], 'MFDeviceSet': ['DeviceSet', 'BaseDevice'], 'SubBalancedDeviceSet': ['DeviceSet', 'BaseDevice'],
-         'TwoRatioMFDeviceSet': ['MFDeviceSet', 'DeviceSet', 'BaseDevice'], 'BaseDevice': []}
+         'TwoRatioMFDeviceSet': ['MFDeviceSet', 'DeviceSet', 'BaseDevice'], 'BaseDevice': [], 'Device': [], 'SDevice': ['Device']}
 # class -> ordered {attribute: kind}.  LCH list of children, OTAB optional (n,2) table, DEV wrapped device record,
 # LLN list of row-index lists, LN row-index list, B bool, CT constraint type (isEq), S scalar, LSTR list of qualified ids
 ATTRS = {
+  # leaf classes: the WHOLE constraint list (loop bounds, guards, dict types, presence of 'jac') is translated here
+  'Device': {'cbounds': 'LCB'},
+  'SDevice': {'cbounds': 'LCB', 'c1': 'S', 'c2': 'S', 'c3': 'S', 'capacity': 'S', 'damage_depth': 'S', 'start': 'S', 'reserve': 'S',
+              'efficiency': 'S', 'sustainment': 'S', 'rate_clip[0]': 'OS', 'rate_clip[1]': 'OS', 'lbounds': 'V', 'hbounds': 'V'},
   'BaseDevice': {'leaf_devices()': 'LLEAF', 'shape[0]': 'N'},
   'DeviceSet': {'devices': 'LCH', 'sbounds': 'OTAB'},
   'MFDeviceSet': {'_device': 'DEV', 'devices': 'LCH', 'sbounds': 'OTAB'},
@@ -62,13 +74,14 @@ ATTRS = {
                            'apply_to_remaining': 'B', 'constraint_type': 'CT', 'sign': 'S'},
 }
 LEAN_TY = {'LCH': 'List (Child α)', 'OTAB': 'Option (Nat → α × α)', 'DEV': 'Dev α', 'LLN': 'List (List Nat)', 'LN': 'List Nat',
-           'B': 'Bool', 'CT': 'Bool', 'S': 'α', 'LSTR': 'List String', 'LLEAF': 'List (String × Child α)', 'M': 'Mat α', 'V': 'Nat → α', 'N': 'Nat', 'M1': 'Mat α'}
-GROUPS = ['Shape', 'Cost', 'Bounds', 'Cons', 'MF', 'MFCons', 'SubBalanced', 'Map']
+           'B': 'Bool', 'CT': 'Bool', 'S': 'α', 'LCB': 'List (CBound α)', 'OS': 'Option α', 'LSTR': 'List String', 'LLEAF': 'List (String × Child α)', 'M': 'Mat α', 'V': 'Nat → α', 'N': 'Nat', 'M1': 'Mat α'}
+GROUPS = ['LeafCons', 'Shape', 'Cost', 'Bounds', 'Cons', 'MF', 'MFCons', 'SubBalanced', 'Map']
 
 
 class U:
   def __init__(self, cls, fn, group, args=None, variant='', sub=None):
     self.cls, self.fn, self.group, self.args, self.variant, self.sub = cls, fn, group, args or {}, variant, sub
+    self.flavor = 'vec' if cls in ('Device', 'SDevice') else 'mat'      # constraints over a flow vector / a flow matrix
     self.lean = cls + '_' + fn.strip('_') + ('_' + sub if sub else '') + ('_' + variant if variant else '')
     self.file = FILES[cls]
     self.key = (cls, fn, variant)
@@ -78,7 +91,8 @@ class U:
 
 PV = {'': 'M', 'pvec': 'V', 'pscalar': 'S', 'prow': 'M1'}      # price shapes: (R,n) matrix, (n,) vector, scalar, (1,n) row
 UNITS = (
-  [U('DeviceSet', 'shapes', 'Shape'), U('DeviceSet', 'shape', 'Shape'), U('DeviceSet', 'partition', 'Shape'), U('DeviceSet', 'slices', 'Shape')]
+  [U('Device', 'constraints', 'LeafCons'), U('SDevice', 'constraints', 'LeafCons')]
+  + [U('DeviceSet', 'shapes', 'Shape'), U('DeviceSet', 'shape', 'Shape'), U('DeviceSet', 'partition', 'Shape'), U('DeviceSet', 'slices', 'Shape')]
   + [U('DeviceSet', f, 'Cost', {'s': 'M', 'p': k}, variant=v) for v, k in PV.items() for f in ('costv', 'cost', 'deriv')]
   + [U('DeviceSet', 'hess', 'Cost', {'s': 'M', 'p': 'M'})]
   + [U('DeviceSet', 'bounds', 'Bounds'), U('DeviceSet', 'project', 'Bounds', {'s': 'M'})]
@@ -122,6 +136,8 @@ class SCtx(TV.Ctx):
     super().__init__(tu, unit, cls_node)
     self.hof_used = set(); self.extra_params = []
     self.nx = 0
+    self.unstable = set()        # names the unit's body rebinds (closures over them are late-binding)
+    self.lambda_bound = set()    # parameters of the lambdas being evaluated
 
   def ew(self, f, vals, ek=None):
     # a (1, n) matrix broadcasts along the rows of a full matrix operand
@@ -147,6 +163,9 @@ class SCtx(TV.Ctx):
   def attr_val(self, name, kind):
     ln = lname(name)
     if kind == 'LCH': return LL([ln], 'CH')
+    if kind == 'LCB': return LL([ln], 'CB')
+    if kind == 'OS': return Val('OPT', term=ln, inner='S')
+    if kind == 'V': return self.paren_elem(V((lambda a: lambda i: '%s %s' % (a, i))(ln), 'n', 'a', atom=ln))
     if kind == 'OTAB': return Val('OPT', term=ln, inner='TAB')
     if kind == 'DEV': return Val('DEV', term=ln)
     if kind == 'LLN': return LL([ln], 'LN')
@@ -162,6 +181,7 @@ class SCtx(TV.Ctx):
     if name in self.attr_cache: return self.attr_cache[name]
     table = ATTRS[self.unit.cls]
     if name in table:
+      if self.unit.cls != 'BaseDevice': TV.check_pin(self.tu.classes, self.unit.cls, name)
       v = self.attr_val(name, table[name])
     elif name == 'shape' and 'shape[0]' in table:
       v = Val('T', items=[N(lname('shape[0]')), N('n')])
@@ -172,8 +192,15 @@ class SCtx(TV.Ctx):
       for c in self.mro():
         u = self.tu.units.get((c, name, self.unit.variant)) or self.tu.units.get((c, name, ''))
         if u is not None: break
-      if u is None: raise Unsupported('attribute self.%s' % name)
-      v = self.call_unit_s(u, {})
+      if u is not None: v = self.call_unit_s(u, {})
+      elif self.unit.cls in TV.ATTRS:
+        # a leaf class: simple properties / attributes assigned once in __init__ (a cached matrix …) as in T1v
+        saved, self.enclosing = self.enclosing, None
+        try:
+          v = TV.Ctx.self_attr_(self, name)
+        finally:
+          self.enclosing = saved
+      else: raise Unsupported('attribute self.%s' % name)
     self.attr_cache[name] = v
     return v
 
@@ -206,13 +233,18 @@ class SCtx(TV.Ctx):
     if k == 'N': return N(head)
     if k == 'M': return M(lambda i, j: '(%s %s %s)' % (head, i, j), ret[1], ret[2])
     if k == 'V': return V(lambda i: '(%s %s)' % (head, i), ret[1])
-    if k == 'LL': return LL([head], ret[1])
+    if k == 'LL':
+      r = LL([head], ret[1]); r.unit_result = True      # a translated unit builds a new list on every call
+      return r
     if k == 'T2N': return Val('T', items=[N('%s.1' % head), N('%s.2' % head)])
     if k == 'TAB': return Val('TAB', elem=lambda i: '(%s %s)' % (head, i), length=ret[1])
     raise Unsupported('callee result kind ' + k)
 
   # ---------------------------------------------------------------- expressions
   def ev(self, e, env):
+    if isinstance(e, ast.Lambda):
+      late = sorted((TV.free_names(e) & self.unstable) - self.lambda_bound)
+      if late: raise Unsupported('late-binding closure: `%s` is rebound by the enclosing function and not captured as a default argument' % '`, `'.join(late))
     if isinstance(e, ast.Constant) and isinstance(e.value, str): return Val('STRLIT', term=e.value)
     if isinstance(e, ast.Dict): return self.dict_con(e, env)
     if isinstance(e, ast.IfExp):
@@ -235,7 +267,9 @@ class SCtx(TV.Ctx):
         if e.attr == 'constraints': return LL(['%s.cons' % b.term], 'VCON')
         if e.attr == 'bounds': return Val('TAB', elem=lambda i: '(%s.lbounds %s, %s.hbounds %s)' % (b.term, i, b.term, i), length='n')
         raise Unsupported('device attribute .' + e.attr)
-      if e.attr == 'shape' and b.kind == 'M': return Val('T', items=[N(b.rows or '?'), N(b.cols or '?')])
+      if e.attr == 'shape' and b.kind == 'M':
+        if b.raw or b.rows is None or b.cols is None: raise Unsupported('shape of a flow that was not reshaped')
+        return Val('T', items=[N(b.rows), N(b.cols)])
       if e.attr == 'shape' and b.kind == 'V': return Val('T', items=[N(b.length or '?')])
     if isinstance(e, ast.Tuple):
       return Val('T', items=[self.ev(x, env) for x in e.elts])
@@ -279,6 +313,7 @@ class SCtx(TV.Ctx):
   def bind_elem(self, term, et):
     """a Python value for a Lean variable / projection `term` of element type `et`."""
     if et == 'CH': return Val('CH', term=term)
+    if et == 'CB': return Val('CB', term=term)
     if et == 'N': return N(term)
     if et == 'S': return S(term)
     if et == 'STR': return Val('STR', term=term)
@@ -355,7 +390,7 @@ class SCtx(TV.Ctx):
     # self.sbounds[i][0] … on the table bound by `match`
     if (isinstance(e.value, ast.Attribute) and isinstance(e.value.value, ast.Name) and e.value.value.id == 'self'
         and isinstance(e.slice, ast.Constant) and '%s[%s]' % (e.value.attr, e.slice.value) in ATTRS.get(self.unit.cls, {})):
-      return self.attr_val('%s[%s]' % (e.value.attr, e.slice.value), 'S')
+      return self.self_attr('%s[%s]' % (e.value.attr, e.slice.value))
     b = self.ev(e.value, env)
     sl = e.slice
     if b.kind == 'CONV':
@@ -385,6 +420,7 @@ class SCtx(TV.Ctx):
       if ix.kind == 'I' and ix.term in (0, 1):
         return LL(['(List.map %s %s)' % ('Prod.fst' if ix.term == 0 else 'Prod.snd', ll_term(b))], b.et[1 + ix.term])
       raise Unsupported('column of a list of pairs')
+    if b.kind == 'M' and b.raw: raise Unsupported('index / slice of a flow that was not reshaped to self.shape')
     if b.kind == 'M' and isinstance(sl, ast.Tuple) and len(sl.elts) == 2:
       r_, c_ = sl.elts
       full = lambda x: isinstance(x, ast.Slice) and x.lower is None and x.upper is None and x.step is None
@@ -428,10 +464,12 @@ class SCtx(TV.Ctx):
       v = self.ev(e.comparators[0], env)
       if v.kind == 'CONV': return ('jac', v)
       raise Unsupported("'jac' in a value of kind " + v.kind)
-    if isinstance(e, ast.Name) or isinstance(e, ast.Attribute):
+    if isinstance(e, (ast.Name, ast.Attribute, ast.Subscript)):
       v = self.ev(e, env)
       if v.kind in ('F', 'FN'): return True                # `if fn` on a supplied callable
       if v.kind == 'BOOL': return '%s = true' % v.term
+      if v.kind == 'LL': return '%s.isEmpty = false' % ll_term(v)      # truth value of a list
+      if v.kind == 'OPT' and v.inner == 'S': return ('optnz', v)          # truth value of `None | number`: not None and not 0
       raise Unsupported('truth value of kind ' + v.kind)
     if isinstance(e, ast.Call) and isinstance(e.func, ast.Attribute) and e.func.attr == 'any' and not e.args:
       v = self.ev(e.func.value, env)
@@ -463,19 +501,28 @@ class SCtx(TV.Ctx):
         lo, hi = self.ev(e.args[0], env), self.ev(e.args[1], env)
         return Val('RANGE', lo=self.sc(lo, 'n'), hi=self.sc(hi, 'n'))
       if f.id == 'super' or f.id == 'zmm' and False: pass
-      fn = self.tu.funcs.get(f.id)
+      if f.id in self.tu.shadow.get(self.unit.file, ()) and f.id not in env:
+        raise Unsupported('`%s` is redefined / imported from elsewhere in %s' % (f.id, self.unit.file))
+      if (None, f.id) in self.tu.tainted and f.id not in env:
+        raise Unsupported('the `def` is not what the name denotes: ' + self.tu.tainted[(None, f.id)])
+      fn = self.tu.funcs.get(f.id) if (None, f.id, None) not in self.tu.units else None
       if fn is not None and f.id not in env:
         # a module function of utils.py interpreted at the call site (partial evaluation with this call's arguments)
         tag = 'utils_' + f.id
         if tag not in self.unit.calls: self.unit.calls.append(tag)
         return self.apply(Val('F', node=fn, env={}), e, env)
+    if (isinstance(f, ast.Attribute) and f.attr == 'fget' and isinstance(f.value, ast.Attribute) and isinstance(f.value.value, ast.Name)
+        and f.value.value.id in BASES.get(self.unit.cls, []) and len(e.args) == 1 and isinstance(e.args[0], ast.Name) and e.args[0].id == 'self' and not e.keywords):
+      u = self.tu.units.get((f.value.value.id, f.value.attr, ''))      # Base.prop.fget(self): the base class's property
+      if u is None: raise Unsupported('%s.%s is not a translated unit' % (f.value.value.id, f.value.attr))
+      return self.call_unit_s(u, {})
     if isinstance(f, ast.Attribute):
       # super().constraints is an Attribute, not a call; child / device methods:
       if not (isinstance(f.value, ast.Name) and f.value.id in ('self', 'np')):
         b = self.ev(f.value, env)
         if b.kind == 'CH': return self.child_call(b, f.attr, e, env)
         if b.kind == 'DEV': return self.dev_call(b, f.attr, e, env)
-        if b.kind == 'LL' and f.attr == 'cumsum' and not e.args and b.et == 'N': return LL(['(cumsum %s)' % ll_term(b)], 'N')
+        if b.kind == 'LL' and f.attr == 'cumsum' and not e.args and not e.keywords and b.et == 'N': return LL(['(cumsum %s)' % ll_term(b)], 'N')
         if b.kind == 'LL' and f.attr == 'sum' and isinstance(b.et, tuple) and b.et[0] == 'T' and len(b.et) == 3:
           ax = [k for k in e.keywords if k.arg == 'axis']
           if len(ax) == 1 and self.ev(ax[0].value, env).kind == 'I' and self.ev(ax[0].value, env).term == 0 and b.et[1:] == ('N', 'N'):
@@ -497,7 +544,11 @@ class SCtx(TV.Ctx):
           if len(dims) == 2 and dims[0].kind == 'I' and dims[0].term == 1 and dims[1].kind == 'N':
             be = b.elem
             return M(lambda i, j: be(j), '1', b.length, b.ek, row1=True)       # a (1, n) row
-          if len(dims) == 1 and dims[0].kind == 'N': return b
+          if len(dims) == 1 and dims[0].kind == 'N' and not b.raw and b.length is not None and TV.norm_len(dims[0].term) != TV.norm_len(b.length):
+            # `fn(i).reshape(i.shape)` in utils.zmm for a *constructed* column (np.ones(k), np.array([r0, -r1])): the column
+            # has the extent the caller built it with (numpy raises unless that equals the column it replaces)
+            r = V(b.elem, b.length, b.ek); r.made = b.made
+            return r
         if b.kind == 'FN' or b.kind == 'F': pass
         if b.kind == 'PV': pass
         return self.method(b, f.attr, e, env)
@@ -508,6 +559,18 @@ class SCtx(TV.Ctx):
             names = [p_ for p_, k in u.params]
             return self.call_unit_s(u, self.kw(e, names, env))
         if f.attr == 'leaf_devices' and 'leaf_devices()' in ATTRS[self.unit.cls]: return self.attr_val('leaf_devices()', 'LLEAF')
+        if self.unit.cls in TV.ATTRS and not e.args and not e.keywords:
+          # a parameterless helper method of a leaf class (`self.base()`): its body is interpreted at the call
+          m_ = self.find_method(f.attr)
+          key = (self.unit.cls, f.attr)
+          if m_ is not None and key not in self.tu.tainted and (self.unit.cls, '*') not in self.tu.tainted:
+            tag = '%s_%s' % key
+            if tag not in self.unit.calls: self.unit.calls.append(tag)
+            saved, self.enclosing = self.enclosing, None
+            try:
+              return self.run(m_.body, {})
+            finally:
+              self.enclosing = saved
     return super().call(e, env)
 
   def apply(self, fv, e, env):
@@ -561,26 +624,39 @@ class SCtx(TV.Ctx):
     raise Unsupported('device method ' + meth)
 
   def reshape_m(self, b, e, env):
+    if e.keywords: raise Unsupported('keyword %s= of .reshape() is not modelled (order= changes which entry goes where)' % e.keywords[0].arg)
     args = [self.ev(a, env) for a in e.args]
     dims = args[0].items if len(args) == 1 and args[0].kind == 'T' else args
     if len(dims) == 2 and all(d.kind in 'IN' for d in dims):
-      return M(b.elem, self.sc(dims[0], 'n'), self.sc(dims[1], 'n'), b.ek, atom=getattr(b, 'atom', None))
+      return M(b.elem, self.sc(dims[0], 'n'), self.sc(dims[1], 'n'), b.ek, atom=getattr(b, 'atom', None))      # no longer raw
     if len(dims) == 1 and dims[0].kind == 'N':
       if getattr(b, 'row1', False) or b.rows in ('1', '(1 : Nat)'):          # a (1, n) row back to a vector / a row matrix flattened
         be = b.elem
         return V(lambda i: be('0', i), b.cols, b.ek)
-      return b                                                 # (R, n) -> flat (R·n,): the same (row, slot)-indexed function
+      r = M(b.elem, b.rows, b.cols, b.ek); r.flat = True        # (R, n) -> flat (R·n,): the same (row, slot)-indexed function,
+      return r                                                 # remembered as flat (a constraint Jacobian must be)
     raise Unsupported('reshape of a matrix to this shape')
 
   def method(self, b, m, e, env):
+    if b.kind == 'M' and b.raw and m != 'reshape': raise Unsupported('.%s() of a flow that was not reshaped to self.shape' % m)
     if b.kind == 'M' and m == 'sum' and not e.args and not e.keywords and (b.rows is None or b.cols is None):
       raise Unsupported('sum of a matrix of unknown shape')
     return super().method(b, m, e, env)
+
+  SETS_KW = {'array': ('dtype',), 'repeat': ('axis',), 'stack': ('axis',)}
 
   def numpy(self, fn, e, env):
     if fn in ('array', 'vstack', 'concatenate', 'roll', 'repeat', 'tile', 'stack'):
       args = [self.ev(a, env) for a in e.args]
       if fn == 'array' and not (len(args) == 1 and args[0].kind in ('LL', 'L')): return super().numpy(fn, e, env)
+      def natlist(v):
+        return v.kind == 'LL' and (v.et == 'N' or (isinstance(v.et, tuple) and v.et[0] == 'T' and all(x == 'N' for x in v.et[1:])))
+      for k in e.keywords:
+        if k.arg is None or k.arg not in self.SETS_KW.get(fn, ()): raise Unsupported('keyword %s= of np.%s is not modelled' % (k.arg, fn))
+        if k.arg == 'dtype':
+          # float for values; `int` (int64) only for a list of row counts / offsets, which are naturals anyway
+          ok = (isinstance(k.value, ast.Name) and k.value.id == 'int') if natlist(args[0]) else TV.is_float_dtype(k.value)      # (float offsets cannot index)
+          if not ok: raise Unsupported('np.array with this dtype is not the same list of numbers')
       kws = {k.arg: (self.ev(k.value, env) if k.arg != 'dtype' else None) for k in e.keywords}
       if fn == 'array' and len(args) == 1 and args[0].kind == 'LL' and set(kws) <= {'dtype'}: return args[0]
       if fn == 'array' and len(args) == 1 and args[0].kind == 'L' and not kws:      # np.array([r0, -r1])
@@ -607,10 +683,10 @@ class SCtx(TV.Ctx):
       if fn == 'repeat' and len(args) == 2 and args[0].kind == 'V' and args[1].kind in 'IN' and (not kws or (set(kws) == {'axis'} and kws['axis'].kind == 'I' and kws['axis'].term == 0)):
         # flat repeat of a length-n vector k times, viewed as the (k, n) matrix it is reshaped to
         ve = args[0].elem; k = self.sc(args[1], 'n'); nn = args[0].length
-        return M(lambda i, j: ve('((%s * %s + %s) / %s)' % (i, nn, j, k)), k, nn)
+        return M(lambda i, j: ve('((%s * %s + %s) / %s)' % (i, nn, j, k)), k, nn, flat=True)
       if fn == 'tile' and len(args) == 2 and args[0].kind == 'V' and args[1].kind in 'IN' and not kws:
         ve = args[0].elem
-        return M(lambda i, j: ve(j), self.sc(args[1], 'n'), args[0].length)
+        return M(lambda i, j: ve(j), self.sc(args[1], 'n'), args[0].length, flat=True)
       if fn == 'stack' and len(args) == 1 and args[0].kind == 'T' and len(args[0].items) == 2 and 'axis' in kws and kws['axis'].term == 1:
         a, b = args[0].items
         if a.kind == 'V' and b.kind == 'V':
@@ -628,13 +704,28 @@ class SCtx(TV.Ctx):
     if len(names) - ndef != 1: raise Unsupported('constraint lambda with %d free parameters' % (len(names) - ndef))
     sv = self.fx('s')
     env2 = dict(fv.env)
-    env2[names[0]] = M((lambda a: lambda i, j: '(%s %s %s)' % (a, i, j))(sv), None, None, atom=sv)
+    if self.unit.flavor == 'vec':
+      env2[names[0]] = self.paren_elem(V((lambda a: lambda i: '%s %s' % (a, i))(sv), 'n', 'a', atom=sv))
+      env2[names[0]].raw = True                  # SciPy / callers hand the flow as (n,) or (1, n)
+    else:
+      env2[names[0]] = M((lambda a: lambda i, j: '(%s %s %s)' % (a, i, j))(sv), None, None, atom=sv)
+      env2[names[0]].raw = True                  # flat (R·n,) or (R, n) until `reshape(shape)`
     for k_, nm in enumerate(names[1:]):
       env2[nm] = ('lazy', node.args.defaults[k_], fv.env)
-    body = self.ev(node.body, env2)
+    saved = self.lambda_bound
+    self.lambda_bound = saved | set(names)
+    try:
+      body = self.ev(node.body, env2)
+    finally:
+      self.lambda_bound = saved
     if want == 'mat2s':
       return '(fun %s => %s)' % (sv, self.sc(body, 'a'))
+    if self.unit.flavor == 'vec':
+      if body.kind != 'V': raise Unsupported('Jacobian of kind ' + body.kind)
+      i_ = self.fx('i')
+      return '(fun %s %s => %s)' % (sv, i_, body.elem(i_))
     if body.kind != 'M': raise Unsupported('Jacobian of kind ' + body.kind)
+    if not getattr(body, 'flat', False): raise Unsupported('a constraint Jacobian that is not flattened to (R·n,) (`.reshape(flat_shape)` / np.tile)')
     r_, i_ = self.fx('r'), self.fx('i')
     return '(fun %s %s %s => %s)' % (sv, r_, i_, body.elem(r_, i_))
 
@@ -652,7 +743,7 @@ class SCtx(TV.Ctx):
     return Val('CON', iseq=iseq, fn=fn, jac=jac, term=None)
 
   def con_term(self, c):
-    return '({ isEq := %s, fn := %s, jac := %s } : MCon α)' % (c.iseq, c.fn, c.jac)
+    return '({ isEq := %s, fn := %s, jac := %s } : %s α)' % (c.iseq, c.fn, c.jac, 'Con' if self.unit.flavor == 'vec' else 'MCon')
 
   # ---------------------------------------------------------------- statements
   def exec(self, stmts, env):
@@ -670,17 +761,30 @@ class SCtx(TV.Ctx):
         acc = env.get('__yield__', LL([], None))
         env['__yield__'] = LL(acc.parts + ['[%s]' % self.elem_term(v)], self.et_of(v))
         continue
+      if isinstance(s, ast.FunctionDef):
+        late = sorted(TV.free_names(s) & self.unstable)
+        if late: raise Unsupported('late-binding closure `%s`: `%s` is rebound by the enclosing function' % (s.name, '`, `'.join(late)))
+        env[s.name] = Val('F', node=s, env=env); continue
       if isinstance(s, ast.Assign) and len(s.targets) == 1:
         t = s.targets[0]
         if isinstance(t, ast.Name):
+          if '__base__' in env and t.id in env['__base__']:
+            raise Unsupported('the list `%s` is rebound inside a loop / branch (that discards what was accumulated; only `+=` appends)' % t.id)
           if isinstance(s.value, ast.Attribute) and isinstance(s.value.value, ast.Call) and isinstance(s.value.value.func, ast.Name) \
              and s.value.value.func.id == 'super' and not s.value.value.args:
-            env[t.id] = self.super_attr(s.value.attr); continue
+            env[t.id] = self.super_attr(s.value.attr); self.fresh_names.add(t.id); continue
           v = self.ev(s.value, env)
+          unit_result = getattr(v, 'unit_result', False)
           if v.kind == 'LL': v = LL(v.parts, v.et)
+          # a list is extended in place only if it was built here: a display / comprehension / the (new) list a translated
+          # `constraints` property returns; an array only if it is a new array (T1v rule)
+          newlist = v.kind == 'LL' and (isinstance(s.value, (ast.List, ast.ListComp)) or unit_result)
+          (self.fresh_names.add if (newlist or TV.fresh_expr(s.value)) else self.fresh_names.discard)(t.id)
           env[t.id] = v; continue
         if isinstance(t, ast.Tuple) and all(isinstance(x, ast.Name) for x in t.elts):
           v = self.ev(s.value, env)
+          if v.kind == 'CB' and len(t.elts) == 4:        # l, h, s, e = cbound
+            v = Val('T', items=[S('%s.l' % v.term), S('%s.h' % v.term), N('%s.s' % v.term), N('%s.e' % v.term)])
           if v.kind != 'T' or len(v.items) != len(t.elts): raise Unsupported('tuple assignment')
           for x, it in zip(t.elts, v.items): env[x.id] = it
           continue
@@ -689,6 +793,7 @@ class SCtx(TV.Ctx):
           continue
         raise Unsupported('assignment form')
       if isinstance(s, ast.AugAssign) and isinstance(s.op, ast.Add) and isinstance(s.target, ast.Name) and s.target.id in env:
+        self.check_inplace(s.target.id)
         a = env[s.target.id]; b = self.ev(s.value, env)
         if a.kind == 'LL' and b.kind == 'LL':
           env[s.target.id] = LL(a.parts + b.parts, a.et or b.et); continue
@@ -752,6 +857,24 @@ class SCtx(TV.Ctx):
       env[tgt] = Val('CON', iseq=con.iseq, fn=con.fn, jac='(Option.map (fun %s => %s) %s.jac)' % (f, fn, cv.term), term=None)
       return env
     # dynamic condition: both branches may only append to accumulators
+    if isinstance(c, tuple) and c[0] == 'optnz':
+      ov = c[1]
+      if s.orelse: raise Unsupported('else branch of a truth test on an optional number')
+      cv = self.fx('c')
+      name = [k for k, v in ATTRS[self.unit.cls].items() if lname(k) == ov.term][0]
+      saved = dict(self.attr_cache)
+      self.attr_cache[name] = S(cv)
+      try:
+        e1, r1 = self.exec(s.body, self.delta_env(env))
+      finally:
+        self.attr_cache = saved
+      if r1 is not None: raise Unsupported('return inside a dynamic branch')
+      d1 = self.deltas(env, e1)
+      env = dict(env)
+      for k in sorted(d1):
+        base = env[k]
+        env[k] = LL(base.parts + ['(match %s with | some %s => (if %s ≠ (0 : α) then %s else []) | none => [])' % (ov.term, cv, cv, d1[k][0])], base.et or d1[k][1])
+      return env
     if isinstance(c, tuple) and c[0] == 'opt':
       ov, positive = c[1], c[2]
       sb = self.fx('sb')
@@ -951,6 +1074,17 @@ class TU:
         if isinstance(node, ast.FunctionDef) and fn == 'utils.py': self.funcs[node.name] = node
     self.units = {}
     self.kernels = {}
+    self.tainted, self.shadow = TV.scan_bindings(os.path.join(repo, 'device_kit'), set(self.classes) | set(TV.FILES) - {None})
+    # the T1v units (utils.sustainment_matrix …) a leaf-level constraint list may call: translated by T1v, called here
+    self.tv = TV.TU(repo)
+    for u in TV.UNITS:
+      self.tv.units[u.key] = u
+      u.ok = False; u.calls = []
+      try:
+        self.tv.translate(u)
+      except Unsupported:
+        pass
+    self.units.update({k: u for k, u in self.tv.units.items() if k[0] is None})
 
   def locate(self, u):
     c = self.classes.get(u.cls)
@@ -963,7 +1097,10 @@ class TU:
     node = self.locate(u)
     if node is None: raise Unsupported('unit not found (or not unique)')
     u.line = node.lineno
+    for key in ((u.cls, u.fn), (u.cls, '*')):
+      if key in self.tainted: raise Unsupported('the `def` is not what the name denotes: ' + self.tainted[key])
     ctx = SCtx(self, u, self.classes[u.cls])
+    ctx.unstable = TV.unstable_names(node)
     names = [a.arg for a in node.args.args][1:]
     ndef = len(node.args.defaults)
     env = {}; params = []
@@ -980,7 +1117,9 @@ class TU:
       params = list(u.args.items())
     for nm, kind in params:
       ln = lname(nm)
-      if kind == 'M': env[nm] = M((lambda a: lambda i, j: '(%s %s %s)' % (a, i, j))(ln), None, None, atom=ln)
+      if kind == 'M':
+        env[nm] = M((lambda a: lambda i, j: '(%s %s %s)' % (a, i, j))(ln), None, None, atom=ln)
+        env[nm].raw = (nm == 's')      # the flow as passed in: flat or (R, n) until `s.reshape(self.shape)`
       elif kind == 'M1': env[nm] = M((lambda a: lambda i, j: '(%s %s %s)' % (a, i, j))(ln), '1', 'n', atom=ln, row1=True)
       elif kind == 'V': env[nm] = ctx.paren_elem(V((lambda a: lambda i: '%s %s' % (a, i))(ln), 'n', 'a', atom=ln))
       elif kind == 'S': env[nm] = S(ln)
@@ -1006,7 +1145,8 @@ class TU:
     elif res.kind == 'T' and len(res.items) == 2 and all(x.kind in 'IN' for x in res.items):
       rty, body, ret = 'Nat × Nat', '(%s, %s)' % tuple(ctx.sc(x, 'n') for x in res.items), ('T2N',)
     elif res.kind == 'LL':
-      rty, body, ret = 'List (%s)' % self.et_lean(res.et), ll_term(res), ('LL', res.et)
+      et = 'VCONL' if (res.et == 'MCON' and u.flavor == 'vec') else res.et
+      rty, body, ret = 'List (%s)' % self.et_lean(et), ll_term(res), ('LL', res.et)
     else: raise Unsupported('result of kind ' + res.kind)
     binders = ['(n : Nat)'] + ['(%s : %s)' % (lname(a), LEAN_TY[k]) for a, k in ATTRS[u.cls].items()] \
               + ['(%s : %s)' % (lname(nm), LEAN_TY[k]) for nm, k in params]
@@ -1019,6 +1159,7 @@ class TU:
     if et == 'S': return 'α'
     if et == 'CH': return 'Child α'
     if et == 'MCON': return 'MCon α'
+    if et == 'VCONL': return 'Con α'
     if et == 'STR': return 'String'
     if et == 'VEC': return '(Nat → α)'
     if et == 'TABLE': return 'Nat × (Nat → α × α)'
@@ -1068,13 +1209,15 @@ def translate_all(repo):
     body[u.group].append(text)
     units.append((u.lean, where))
   by_lean = {u.lean: u for u in UNITS}
+  tvl = {u.lean: u for u in TV.UNITS}
   texts = {}
   for g in GROUPS:
     callee = {c for u in UNITS if u.group == g for c in u.calls}
     deps = sorted({by_lean[c].group for c in callee if c in by_lean} - {g}, key=GROUPS.index)
-    fs = sorted(files[g] | {by_lean[c].file for c in callee if c in by_lean} | ({'utils.py'} if any(c.startswith('utils_') for c in callee) else set()))
+    vdeps = sorted({tvl[c].group for c in callee if c in tvl}, key=TV.GROUPS.index)
+    fs = sorted(files[g] | {by_lean[c].file for c in callee if c in by_lean} | {tvl[c].file for c in callee if c in tvl} | ({'utils.py'} if any(c.startswith('utils_') for c in callee) else set()))
     sha = hashlib.sha256(''.join(fn + '\n' + tu.src[fn] for fn in fs).encode()).hexdigest()[:16]
-    imports = 'import DK.Gen.Sets.Prelude\n' + ''.join('import DK.Gen.Sets.%s\n' % d for d in deps)
+    imports = 'import DK.Gen.Sets.Prelude\n' + ''.join('import DK.Gen.Vec.%s\n' % d for d in vdeps) + ''.join('import DK.Gen.Sets.%s\n' % d for d in deps)
     texts[g] = '\n'.join([HEADER.format(src=', '.join('device_kit/' + f for f in fs), sha=sha, imports=imports)] + body[g] + ['end', 'end DK.Gen', ''])
   calls = {u.lean: [c for c in u.calls] for u in UNITS}
   return texts, units, fallback, calls
